@@ -129,6 +129,14 @@ def _gen_op(rng, cfg):
         return ["shell", rng.randrange(1000), rng.randrange(1000), rng.random() < 0.6]
     if kind == "mol":
         return ["mol", rng.randrange(1000), rng.randint(1, 3), rng.random() < 0.5]
+    if kind == "molctor":
+        how = rng.choice(["size", "pruned", "preset"])
+        nat = rng.randint(1, 3)
+        coords = [[0.0, 0.0, 0.0], [0.0, 0.0, round(rng.uniform(1.2, 2.5), 2)], [round(rng.uniform(1.2, 2.0), 2), 0.3, 0.0]][:nat]
+        atnums = [rng.choice([1, 6, 7, 8]) for _ in range(nat)]
+        tab_size = M.resolve("lebedev", "degree", rng.choice(cfg["pool"]["lebedev"]))[1]
+        return ["molctor", how, atnums, coords, _gen_rspec(rng), tab_size, rng.choice([0, 37, 5]), rng.random() < 0.5,
+                sorted(round(rng.uniform(0.2, 2.0), 2) for _ in range(2)), [rng.choice(cfg["pool"]["lebedev"]) for _ in range(3)]]
     if kind == "use":
         return ["use", rng.randrange(1000), rng.choice(["integrate", "angint", "sph", "spline", "interp", "basis"])]
     if kind == "edit":
@@ -163,7 +171,7 @@ def _gen_op(rng, cfg):
 
 
 BASE_KINDS = [
-    ("ang", 10), ("atom", 7), ("pruned", 2), ("preset", 1), ("shell", 4), ("mol", 1.5), ("use", 5), ("edit", 7),
+    ("ang", 10), ("atom", 7), ("pruned", 2), ("preset", 1), ("shell", 4), ("mol", 1.5), ("molctor", 1.5), ("use", 5), ("edit", 7),
     ("reobserve", 3), ("restart", 2), ("tf_new", 2), ("tf_call", 6), ("coulomb", 3), ("perturb_rng", 1), ("invalid", 1.5),
 ]
 
@@ -658,6 +666,53 @@ def _op_mol(ctx, owner, op):
     ctx.log.add(ctx.step, "mol", "ok", hash_array(oc[1].points), hash_array(oc[1].weights))
 
 
+def _build_molctor(ctx, op):
+    from grid.becke import BeckeWeights
+    from grid.molgrid import MolGrid
+
+    _, how, atnums, coords, rspec, size, rotate, store, r_sectors, d_sectors = op
+    rg = _rgrid(ctx, rspec)
+    an = np.array(atnums)
+    ac = np.array(coords, dtype=float)
+    if how == "size":
+        return MolGrid.from_size(an, ac, size, rgrid=rg, aim_weights=BeckeWeights(order=3), rotate=rotate, store=store)
+    if how == "pruned":
+        n = len(atnums)
+        return MolGrid.from_pruned(an, ac, 1.0, [list(r_sectors)] * n, [list(d_sectors)] * n, rgrid=rg, aim_weights=BeckeWeights(order=3), rotate=rotate, store=store)
+    return MolGrid.from_preset(an, ac, "coarse", rgrid=rg, aim_weights=BeckeWeights(order=3), rotate=rotate, store=store)
+
+
+def _op_molctor(ctx, owner, op):
+    """Convenience constructors of MolGrid: equal to the same call in a cold, fault-free process."""
+    with _Cold(ctx):
+        rc = _outcome(lambda: _build_molctor(ctx, op))
+    ctx.probes.hit("reference-execution")
+    if rc[0] == "raise":
+        ctx.log.add(ctx.step, "molctor", "reference-raised", type(rc[1]).__name__)
+        return
+    ref = rc[1]
+    had_fault = ctx.store.active()
+    mark = ctx.mark()
+    oc = _outcome(lambda: _build_molctor(ctx, op))
+    fired = ctx.fired_since(mark)
+    if oc[0] == "raise":
+        if fired or had_fault:
+            ctx.log.add(ctx.step, "molctor", "raise-under-fault", type(oc[1]).__name__)
+            return
+        ctx.violate("unexpected-raise", "molctor", type(oc[1]).__name__, f"{op[:4]} raised {oc[1]!r} but the cold reference did not")
+        return
+    g = oc[1]
+    good = M.close(g.points, ref.points) and M.close(g.weights, ref.weights, rtol=1e-10) and np.array_equal(np.asarray(g.indices), np.asarray(ref.indices)) and M.close(g.aim_weights, ref.aim_weights, rtol=1e-10)
+    if not good:
+        ctx.violate("mol-ref", "molctor", op[1], f"MolGrid.from_{op[1]}{op[2:4]} differs from the same call in a cold fault-free process")
+    keys = set()
+    for k in list(ctx.seen_keys):
+        if k[0] == "lebedev" and k in ctx.perturbed:
+            ctx.nontrivial = True
+    mo = ctx.add(owner, Obj("mol", g, list(op), {"points": np.array(ref.points), "weights": np.array(ref.weights), "indices": np.array(ref.indices)}, keys, owner))
+    ctx.log.add(ctx.step, "molctor", op[1], "ok", hash_array(g.points), hash_array(g.weights))
+
+
 def _func_on(points, center):
     d = points - np.asarray(center)
     r2 = np.sum(d * d, axis=1)
@@ -1013,7 +1068,7 @@ def _op_heal(ctx, owner, op):
 
 OPS = {
     "ang": _op_construct, "atom": _op_construct, "pruned": _op_construct, "preset": _op_construct,
-    "shell": _op_shell, "mol": _op_mol, "use": _op_use, "edit": _op_edit, "reobserve": _op_reobserve,
+    "shell": _op_shell, "mol": _op_mol, "molctor": _op_molctor, "use": _op_use, "edit": _op_edit, "reobserve": _op_reobserve,
     "restart": _op_restart, "tf_new": _op_tf_new, "tf_call": _op_tf_call, "coulomb": _op_coulomb,
     "invalid": _op_invalid, "perturb_rng": _op_perturb_rng, "arm": _op_arm, "heal": _op_heal,
 }
